@@ -440,7 +440,22 @@ class SpecGen:
         if rnd.random() < 0.15:
             ro2 = self.range_operand()
             if ro2:
+                if self.k.get('union') and rnd.random() < 0.5 and ' ' not in txt + ro2[0]:
+                    # (an intersection inside a union is translated wrongly by pycel: C02, not claimed)
+                    # the union operator: references in parentheses, separated by commas
+                    t3, p3, d3 = self.atom() if rnd.random() < 0.4 else ('', [], [])
+                    if p3:
+                        return f'{fn}(({txt},{ro2[0]},{t3}))', prec + ro2[1] + p3, d3
+                    return f'{fn}(({txt},{ro2[0]}))', prec + ro2[1], []
                 return f'{fn}({txt},{ro2[0]})', prec + ro2[1], []
+        if self.k['index'] and rnd.random() < 0.08 and ' ' not in txt and prec and '!' not in txt[1:2]:
+            # a whole column / row of the range picked by INDEX(range, 0, j): all of it is read
+            cols = sorted({coord_rc(split_addr(a)[1])[1] for a in prec})
+            rows = sorted({coord_rc(split_addr(a)[1])[0] for a in prec})
+            if len(cols) * len(rows) == len(prec) and not txt[0].isdigit():
+                if rnd.random() < 0.5:
+                    return f'{fn}(INDEX({txt},0,{rnd.randint(1, len(cols))}))', prec, []
+                return f'{fn}(INDEX({txt},{rnd.randint(1, len(rows))},0))', prec, []
         return f'{fn}({txt})', prec, []
 
     def expr(self, depth=0):
